@@ -69,6 +69,11 @@ var filterCorpus = map[string]string{
 	"f1": "(cn=a)", "f2": "(objectClass=*)", "f3": "(cn=a*b*c)", "f4": "(uid>=x)", "f5": "(uid<=x)", "f6": "(uid~=x)",
 	"f7": "(cn:dn:2.5.13.2:=a)", "f8": "(&(a=b)(c=d))", "f9": "(|(a=b)(c=d))", "f10": "(!(a=b))",
 	"f11": "(&(|(a=b)(!(c=d)))(e=*))", "f12": "(uid=x)",
+	// long filters in sibling pairs: same content bytes, different operator
+	"f13": "(&(description=" + strings.Repeat("d", 60) + ")(title=" + strings.Repeat("t", 24) + "))",
+	"f14": "(|(description=" + strings.Repeat("d", 60) + ")(title=" + strings.Repeat("t", 24) + "))",
+	"f15": "(!(description=" + strings.Repeat("e", 90) + "))",
+	"f16": "(&(description=" + strings.Repeat("e", 90) + "))",
 }
 
 func newReqSym() *reqSym {
